@@ -335,10 +335,11 @@ func runC14(r *mc.Run) {
 	r.Assumptions = []string{"votes and evidence only name validators known to the application"}
 	completed := depth
 	for _, c := range c14Configs(r.Thorough()) {
-		e := &engb.Explorer{Run: r, NewRoot: c.newRoot, Menu: c14Menu(c, r.Thorough()), Monitor: c14Monitor(r, c), Depth: depth, WantMid: true, ExtraKey: c14Key}
+		e := &engb.Explorer{Run: r, NewRoot: c.newRoot, Menu: c14Menu(c, r.Thorough()), Monitor: c14Monitor(r, c), Depth: depth, ConformanceDepth: 2, WantMid: true, ExtraKey: c14Key}
 		if err := e.Explore(); err != nil {
 			panic(err)
 		}
+		runConformance(r, c, e)
 		if e.Completed < completed {
 			completed = e.Completed
 		}
